@@ -76,7 +76,12 @@ package fstree
 //@   ghost var ok bool = false
 //@   at after (*FSTree).buildFilePath ghost p = ret0
 //@   at after (*FSTree).buildFilePath ghost ok = (ret1 == nil)
-//@   at call os.Remove assert ok && arg0 == p
+//@   at optional call os.Remove assert ok && arg0 == p
+// C02: deleting a record removes that one entry, never a subtree of other records, and it does remove it
+//@   ghost var rm0 int = fsRemoves
+//@   ghost var tr0 int = fsTreeRemoves
+//@   ensures fsTreeRemoves == tr0
+//@   ensures r0 == nil ==> fsRemoves == rm0 + 1 && fsRemoved == p && ok
 
 //@ func (*FSTree).Put
 //@   requires fst != nil
